@@ -76,6 +76,10 @@ fn main() {
             props::lab7();
             return;
         }
+        "lab8" => {
+            props::lab8();
+            return;
+        }
         "lab5" => {
             props::lab5();
             return;
